@@ -134,6 +134,51 @@ pub fn for_each_db(tables: &[&str], sizes: &[usize], d: &Domain, mut f: impl FnM
     });
 }
 
+/// Like [`for_each_db`] with an additional bound on the total number of rows
+/// over the named tables.
+pub fn for_each_db_bounded(tables: &[&str], sizes: &[usize], total_max: usize, d: &Domain, mut f: impl FnMut(Database)) {
+    let inst: Vec<Vec<Vec<Row>>> = tables.iter().zip(sizes).map(|(t, n)| table_instances(t, *n, d)).collect();
+    let dims: Vec<usize> = inst.iter().map(|i| i.len()).collect();
+    mc_core::enumerate::product(&dims, |idx| {
+        let total: usize = idx.iter().enumerate().map(|(k, i)| inst[k][*i].len()).sum();
+        if total > total_max {
+            return;
+        }
+        let mut db = Database::empty();
+        for (k, t) in tables.iter().enumerate() {
+            db.table_mut(t).unwrap().rows = inst[k][idx[k]].clone();
+        }
+        f(db);
+    });
+}
+
+/// Number of databases `for_each_db_bounded` would produce.
+pub fn count_dbs_bounded(tables: &[&str], sizes: &[usize], total_max: usize, d: &Domain) -> usize {
+    // per table: number of instances with exactly k rows
+    let per: Vec<Vec<usize>> = tables
+        .iter()
+        .zip(sizes)
+        .map(|(t, n)| {
+            let mut c = vec![0usize; n + 1];
+            for i in table_instances(t, *n, d) {
+                c[i.len()] += 1;
+            }
+            c
+        })
+        .collect();
+    let mut acc: Vec<usize> = vec![1]; // acc[r] = ways to have r rows so far
+    for c in per {
+        let mut next = vec![0usize; acc.len() + c.len() - 1];
+        for (r, a) in acc.iter().enumerate() {
+            for (k, x) in c.iter().enumerate() {
+                next[r + k] += a * x;
+            }
+        }
+        acc = next;
+    }
+    acc.iter().enumerate().filter(|(r, _)| *r <= total_max).map(|(_, x)| *x).sum()
+}
+
 /// Number of databases `for_each_db` would produce.
 pub fn count_dbs(tables: &[&str], sizes: &[usize], d: &Domain) -> usize {
     tables.iter().zip(sizes).map(|(t, n)| table_instances(t, *n, d).len()).product()
